@@ -112,8 +112,10 @@ type addResult struct {
 }
 
 type stepObs struct {
-	sent    *[]pm
-	written *[]txe
+	sent       *[]pm
+	written    *[]txe
+	calls      int // SendMessages calls made for this batch
+	unaccepted int // messages handed over in calls that the producer did not fully accept
 }
 
 type runResult struct {
@@ -216,10 +218,13 @@ func buildBatch(cfg kcfg, msgs []kmsg) (transport.Batch, addResult) {
 
 type fakeProducer struct {
 	result   string
-	rejected []int
+	rejected []int // indices into the BATCH's payload (a broker rejects messages, not positions of a call)
 	during   func()
 	calls    [][]pm
 	closes   int
+	seen     int  // messages of the current batch handed over so far (all calls)
+	unacc    int  // ... of which the broker did not accept
+	ncalls   int  // SendMessages calls for the current batch
 }
 
 func (f *fakeProducer) SendMessages(msgs []*sarama.ProducerMessage) error {
@@ -227,20 +232,33 @@ func (f *fakeProducer) SendMessages(msgs []*sarama.ProducerMessage) error {
 	if f.during != nil {
 		f.during()
 	}
+	base := f.seen
+	f.seen += len(msgs)
+	f.ncalls++
 	switch f.result {
 	case "ok":
 		return nil
 	case "failed":
+		// the first call for a batch answers exactly as scripted (also for indices outside the batch and
+		// for an empty error list); a worker that hands one batch over in SEVERAL calls gets, for each
+		// later call, the rejections that fall into that call - or success if none does
 		pe := sarama.ProducerErrors{}
 		for _, i := range f.rejected {
 			var m *sarama.ProducerMessage
-			if i >= 0 && i < len(msgs) {
-				m = msgs[i]
+			if i >= base && i < base+len(msgs) {
+				m = msgs[i-base]
+			} else if base > 0 {
+				continue
 			}
 			pe = append(pe, &sarama.ProducerError{Msg: m, Err: fmt.Errorf("scripted rejection of message %d", i)})
 		}
+		if base > 0 && len(pe) == 0 {
+			return nil
+		}
+		f.unacc += len(msgs)
 		return pe
 	}
+	f.unacc += len(msgs)
 	return errors.New("scripted non-ProducerErrors error")
 }
 func (f *fakeProducer) SendMessage(msg *sarama.ProducerMessage) (int32, int64, error) {
@@ -326,6 +344,7 @@ func runTransport(steps []kstep) (r runResult) {
 			r.batchTxns = append(r.batchTxns, ar.txns)
 		}
 		prod.result, prod.rejected, prod.during, ft.armed = st.Result, st.Rejected, nil, nil
+		prod.seen, prod.unacc, prod.ncalls = 0, 0, 0
 		switch st.Cancel {
 		case "recv":
 			sh.CancelFunc()
@@ -367,10 +386,8 @@ func runTransport(steps []kstep) (r runResult) {
 		if len(prod.calls) > before {
 			s := prod.calls[len(prod.calls)-1]
 			o.sent = &s
-			if len(prod.calls) > before+1 {
-				r.infra = "SendMessages called more than once for one batch"
-			}
 		}
+		o.calls, o.unaccepted = prod.ncalls, prod.unacc
 		r.obs = append(r.obs, o)
 		if !r.stopped && sh.TerminateCtx.Err() != nil {
 			// the context is cancelled and the worker is on its way to the loop head
@@ -703,12 +720,22 @@ func monitorRun(steps []kstep, r runResult, cs interface{}) []core.Violation {
 		cancelledBefore := st.Cancel == "recv" || st.Cancel == "send"
 		accepted := !st.Other && st.Result == "ok"
 		if o.sent != nil {
-			sends++
+			sends += o.calls
+			if o.calls == 0 {
+				sends++
+			}
 			if cancelledBefore {
 				bad("sent-after-cancel", fmt.Sprintf("batch %d was handed to the producer although shutdown was requested before the send", i))
 			}
-			if !st.Other && !pmsEqual(*o.sent, r.payloads[i]) {
+			if !st.Other && o.calls <= 1 && !pmsEqual(*o.sent, r.payloads[i]) {
 				bad("sent-mismatch", fmt.Sprintf("batch %d: the producer received %d messages that differ from the batch's payload (%d)", i, len(*o.sent), len(r.payloads[i])))
+			}
+		}
+		if o.calls > 1 {
+			// the model (and the code as it stands) hands a batch over in ONE call; several calls are not a
+			// violation by themselves, the outcome rules below decide
+			if o.written != nil && o.unaccepted > 0 {
+				bad("written-without-full-success", fmt.Sprintf("batch %d (%d messages) reported written although %d of its messages were in producer calls that failed (%d calls; scripted rejections %v)", i, len(r.payloads[i]), o.unaccepted, o.calls, st.Rejected))
 			}
 		}
 		if o.written != nil {
@@ -864,11 +891,18 @@ func genRunCase(rng *rand.Rand, adversarial bool) kcase {
 	for i := 0; i < n; i++ {
 		cfg := genCfg(rng, adversarial && rng.Intn(3) == 0)
 		s := kstep{Cfg: cfg, Msgs: genMsgs(rng, cfg, rng.Intn(5), false, rng.Intn(4) == 0), Result: "ok"}
+		big := !adversarial && rng.Intn(12) == 0
+		if big {
+			// a large batch (kafka-batch-size defaults to 5000): hundreds of small messages, and below a
+			// rejection anywhere in it
+			cfg.MaxBatch, cfg.MaxBytes = 5000, 1<<20
+			s = kstep{Cfg: cfg, Msgs: genMsgs(rng, cfg, 400+rng.Intn(900), false, false), Result: "ok"}
+		}
 		pBad := 8
 		if adversarial {
 			pBad = 3
 		}
-		if rng.Intn(pBad) == 0 {
+		if rng.Intn(pBad) == 0 || (big && rng.Intn(2) == 0) {
 			switch rng.Intn(5) {
 			case 0:
 				s.Result = "other"
@@ -883,7 +917,11 @@ func genRunCase(rng *rand.Rand, adversarial bool) kcase {
 					k = 0 // an empty ProducerErrors is still a non-nil error
 				}
 				for j := 0; j < k; j++ {
-					s.Rejected = append(s.Rejected, rng.Intn(5))
+					if big {
+						s.Rejected = append(s.Rejected, rng.Intn(len(s.Msgs)+1))
+					} else {
+						s.Rejected = append(s.Rejected, rng.Intn(5))
+					}
 				}
 				sort.Ints(s.Rejected)
 			}
